@@ -114,6 +114,51 @@ fn overlong(p: &Prop) -> bool {
     }
 }
 
+/// Legal companions for the probed property: 0-3 further properties MQTT 5 lets a client attach
+/// to this packet, with legal values - among them, for a third of them, the *same* property as
+/// the probe with a legal value. Returns the whole list (probe at a random position) and whether
+/// a property other than User Property now occurs twice (MQTT calls that a protocol error, the
+/// crate does not check it: a probe that is legal by itself is then left open).
+fn with_companions(w: &mut World, ctx: ReqCtx, probe: &Prop) -> (Vec<Prop>, bool) {
+    let pool: &[u8] = match ctx {
+        ReqCtx::Publish | ReqCtx::Will => &[0x01, 0x02, 0x03, 0x08, 0x09, 0x26],
+        ReqCtx::Subscribe => &[0x0B, 0x26],
+        ReqCtx::Unsubscribe => &[0x26],
+        ReqCtx::Disconnect => &[0x11, 0x1F, 0x26],
+    };
+    let n = [0u32, 0, 0, 1, 1, 2, 3][w.tape.choose(7) as usize];
+    let mut list: Vec<Prop> = Vec::new();
+    for _ in 0..n {
+        let same = w.tape.chance(1, 3);
+        let id = if same { probe.id } else { pool[w.tape.choose(pool.len() as u32) as usize] };
+        // no property but User Property may occur twice - except in front of (or behind) a probe
+        // that makes the request illegal anyway, so that nothing of it ever reaches the wire
+        if id != 0x26 && (list.iter().any(|c| c.id == id) || (id == probe.id && legal(ctx, probe) != Legal::No)) {
+            continue;
+        }
+        let cands: Vec<Prop> = samples(id).into_iter().filter(|c| legal(ctx, c) == Legal::Yes).collect();
+        if cands.is_empty() {
+            continue;
+        }
+        list.push(cands[w.tape.choose(cands.len() as u32) as usize].clone());
+    }
+    if !list.is_empty() {
+        w.probe("invalid_probe_with_companion_properties");
+    }
+    let at = w.tape.choose(list.len() as u32 + 1) as usize;
+    list.insert(at, probe.clone());
+    let mut dup = false;
+    for (i, a) in list.iter().enumerate() {
+        if a.id != 0x26 && list[..i].iter().any(|b| b.id == a.id) {
+            dup = true;
+        }
+    }
+    if dup && at > 0 && list[..at].iter().any(|b| b.id == probe.id) {
+        w.probe("invalid_probe_after_legal_property_of_the_same_kind");
+    }
+    (list, dup)
+}
+
 fn ctx_name(c: ReqCtx) -> &'static str {
     match c {
         ReqCtx::Publish => "publish",
@@ -124,11 +169,14 @@ fn ctx_name(c: ReqCtx) -> &'static str {
     }
 }
 
-fn judge(w: &mut World, ctx: ReqCtx, p: &Prop, res: &Res, live: bool) {
+fn judge(w: &mut World, ctx: ReqCtx, p: &Prop, res: &Res, live: bool, dup: bool) {
     if !live {
         return;
     }
-    let l = legal(ctx, p);
+    let l = match legal(ctx, p) {
+        Legal::Yes if dup => Legal::Open,
+        other => other,
+    };
     *w.stats.probes.entry("invalid_probe_evaluated").or_insert(0) += 1;
     match l {
         Legal::No => {
@@ -213,10 +261,15 @@ pub fn invalid_probe(conn: &mut Conn<'_, '_>) -> Res {
                 let q = w.tape.choose(3) as u8;
                 gen_publish(w, q)
             });
-            spec.props = vec![prop.clone()];
+            // the probe is about the property: the rest of the request must be encodable
+            if spec.topic.len() > 65_535 {
+                spec.topic.truncate(40);
+            }
+            let (list, dup) = with(|w| with_companions(w, ReqCtx::Publish, &prop));
+            spec.props = list;
             // a third of the probes also carry builder-attached correlation data (the typed
             // request/reply path validates through a different representation)
-            spec.correlate = if prop.id != 0x09 && with(|w| w.tape.chance(1, 3)) {
+            spec.correlate = if !spec.props.iter().any(|p| p.id == 0x09) && with(|w| w.tape.chance(1, 3)) {
                 with(|w| w.probe("invalid_probe_with_builder_correlation"));
                 Some(vec![0xC0, 0xDA])
             } else {
@@ -226,27 +279,29 @@ pub fn invalid_probe(conn: &mut Conn<'_, '_>) -> Res {
             let r = do_publish(conn, &spec);
             with(|w| {
                 w.reqs.last_mut().unwrap().is_probe = true;
-                judge(w, ReqCtx::Publish, &prop, &r, live)
+                judge(w, ReqCtx::Publish, &prop, &r, live, dup)
             });
             r
         }
         2 => {
             let mut spec = with(gen_subscribe);
-            spec.props = vec![prop.clone()];
+            let (list, dup) = with(|w| with_companions(w, ReqCtx::Subscribe, &prop));
+            spec.props = list;
             let r = do_subscribe(conn, &spec);
             with(|w| {
                 w.reqs.last_mut().unwrap().is_probe = true;
-                judge(w, ReqCtx::Subscribe, &prop, &r, live)
+                judge(w, ReqCtx::Subscribe, &prop, &r, live, dup)
             });
             r
         }
         3 => {
             let mut spec = with(gen_unsubscribe);
-            spec.props = vec![prop.clone()];
+            let (list, dup) = with(|w| with_companions(w, ReqCtx::Unsubscribe, &prop));
+            spec.props = list;
             let r = do_unsubscribe(conn, &spec);
             with(|w| {
                 w.reqs.last_mut().unwrap().is_probe = true;
-                judge(w, ReqCtx::Unsubscribe, &prop, &r, live)
+                judge(w, ReqCtx::Unsubscribe, &prop, &r, live, dup)
             });
             r
         }
@@ -279,10 +334,11 @@ pub fn invalid_probe(conn: &mut Conn<'_, '_>) -> Res {
             if legal(ReqCtx::Disconnect, &prop) != Legal::No {
                 return Res::OkNone;
             }
-            let r = do_disconnect(conn, &DiscSpec { reason: Some(0), props: Some(vec![prop.clone()]) });
+            let (list, dup) = with(|w| with_companions(w, ReqCtx::Disconnect, &prop));
+            let r = do_disconnect(conn, &DiscSpec { reason: Some(0), props: Some(list) });
             with(|w| {
                 w.disconnect_expected = None;
-                judge(w, ReqCtx::Disconnect, &prop, &r, live)
+                judge(w, ReqCtx::Disconnect, &prop, &r, live, dup)
             });
             if r == Res::InvalidRequest && live && !conn.is_connected() {
                 with(|w| w.violate("C19", "refused-disconnect-killed-handle".into(), "a refused disconnect left the handle dead".into()));
@@ -366,6 +422,35 @@ pub fn will_table(w: &mut World) {
             }
         }
     }
+    // lists: an illegal property stays illegal wherever it stands and whatever stands before it
+    // (a pure function as well: evaluated in one run in eight)
+    let lists = w.tape.chance(1, 8);
+    for id in ALL_PROP_IDS {
+        if !lists {
+            break;
+        }
+        for p in samples(id) {
+            if legal(ReqCtx::Will, &p) != Legal::No {
+                continue;
+            }
+            let mut firsts: Vec<Prop> = vec![Prop { id: 0x26, val: PVal::Pair("k".into(), "v".into()) }, Prop { id: 0x03, val: PVal::Str("text/plain".into()) }];
+            firsts.extend(samples(id).into_iter().filter(|c| legal(ReqCtx::Will, c) == Legal::Yes).take(1));
+            for f in firsts {
+                for order in 0..2 {
+                    let list = if order == 0 { [f.clone(), p.clone()] } else { [p.clone(), f.clone()] };
+                    let mp: [Property<'_>; 2] = [to_minimq(&list[0]), to_minimq(&list[1])];
+                    *w.stats.probes.entry("will_table_list_entry").or_insert(0) += 1;
+                    if minimq::Will::new("w", b"x", &mp).is_ok() {
+                        w.violate(
+                            "C19",
+                            format!("illegal-accepted/will/prop={:#04x}", p.id),
+                            format!("Will::new accepted the property list {:?} although {:?} is illegal in a will", list, p),
+                        );
+                    }
+                }
+            }
+        }
+    }
     let _ = Packet::PingReq;
 }
 
@@ -381,6 +466,10 @@ pub fn forced_probe(conn: &mut Conn<'_, '_>, ctx: ReqCtx, prop: &Prop) -> Res {
                 let q = w.tape.choose(3) as u8;
                 gen_publish(w, q)
             });
+            // the probe is about the property: the rest of the request must be encodable
+            if spec.topic.len() > 65_535 {
+                spec.topic.truncate(40);
+            }
             spec.props = vec![prop.clone()];
             // a third of the probes also carry builder-attached correlation data (the typed
             // request/reply path validates through a different representation)
@@ -394,7 +483,7 @@ pub fn forced_probe(conn: &mut Conn<'_, '_>, ctx: ReqCtx, prop: &Prop) -> Res {
             let r = do_publish(conn, &spec);
             with(|w| {
                 w.reqs.last_mut().unwrap().is_probe = true;
-                judge(w, ctx, prop, &r, live)
+                judge(w, ctx, prop, &r, live, false)
             });
             r
         }
@@ -404,7 +493,7 @@ pub fn forced_probe(conn: &mut Conn<'_, '_>, ctx: ReqCtx, prop: &Prop) -> Res {
             let r = do_subscribe(conn, &spec);
             with(|w| {
                 w.reqs.last_mut().unwrap().is_probe = true;
-                judge(w, ctx, prop, &r, live)
+                judge(w, ctx, prop, &r, live, false)
             });
             r
         }
@@ -414,7 +503,7 @@ pub fn forced_probe(conn: &mut Conn<'_, '_>, ctx: ReqCtx, prop: &Prop) -> Res {
             let r = do_unsubscribe(conn, &spec);
             with(|w| {
                 w.reqs.last_mut().unwrap().is_probe = true;
-                judge(w, ctx, prop, &r, live)
+                judge(w, ctx, prop, &r, live, false)
             });
             r
         }
@@ -427,7 +516,7 @@ pub fn forced_probe(conn: &mut Conn<'_, '_>, ctx: ReqCtx, prop: &Prop) -> Res {
                 if r == Res::InvalidRequest {
                     w.disconnect_expected = None;
                 }
-                judge(w, ReqCtx::Disconnect, prop, &r, live)
+                judge(w, ReqCtx::Disconnect, prop, &r, live, false)
             });
             if r == Res::InvalidRequest && live && !conn.is_connected() {
                 with(|w| w.violate("C19", "refused-disconnect-killed-handle".into(), "a refused disconnect left the handle dead".into()));
